@@ -410,3 +410,15 @@ Definition undo_redo_code (tt : typetable) (tr : trace tt) : Z :=
   | Err _ => 128 + redo_from (state_of_snapshot tt (tr_start tr))
   | Ok s0 => (if state_equiv tt s0 (tr_start tr) then 0 else 128) + redo_from s0
   end.
+
+(* monitor of the value laws the theorems assume (ValLaws), on the values that occur in a recorded trace *)
+Definition snapshot_values (sn : snapshot) : list ev :=
+  flat_map (fun st : snap_table => flat_map (fun sc : snap_col => snd sc) (snd st)) sn.
+
+Definition laws_monitor (tt : typetable) (tr : trace tt) : bool :=
+  let vals := snapshot_values (tr_start tr) ++ snapshot_values (tr_final tr) in
+  forallb (fun v => ev_enc v v &&
+                    forallb (fun k => ev_enc (norm_kind k (norm_kind k v)) (norm_kind k v) &&
+                                      (negb (ev_strict v (norm_kind k v)) || ev_enc v (norm_kind k v)))
+                            [0; 1; 2; 3]) vals &&
+  forallb (fun e : name * (ev * Z) => let '(_, (d, k)) := e in ev_enc (norm_kind k d) d) tt.
